@@ -242,8 +242,26 @@ def check(rep, ctx):
     # f64
     f64 = pv.get("f64")
     pr = I.class_lookup(f64, "__predicate__") if isinstance(f64, ClassV) else None
-    rep.check(R_F, isinstance(pr, LibFn) and pr.name == "math.isfinite" and I.class_lookup(f64, "__bound__") is LibClass.get("float"),
-              construct="kio.static.primitive:f64", stmt="class f64(float, Phantom, bound=float, predicate=math.isfinite)",
-              message=f"f64's bound/predicate are {I.class_lookup(f64, '__bound__')!r} / {pr!r}", file=file,
+    import math as _math
+    import sys as _sys
+    fl_ok, fl_why = isinstance(pr, LibFn) and pr.name == "math.isfinite", f"predicate is {pr!r}"
+    if isinstance(pr, FuncV):
+        # a hand-written predicate touches its argument through comparisons only: decide it on one representative of every
+        # ordering class of binary64 (finite extremes and zeros, the infinities, NaN which is unordered)
+        fl_ok, probs = True, []
+        for v, want in ((0.0, True), (-0.0, True), (1.5, True), (_sys.float_info.max, True), (-_sys.float_info.max, True),
+                        (5e-324, True), (_math.inf, False), (-_math.inf, False), (_math.nan, False)):
+            try:
+                got = I.call(pr, [v], {}, Run(), None)
+            except Raised as r:
+                got = f"raises {short_exc(r.cls)}"
+            except Limit as e:
+                raise AnalysisError(f"f64 predicate {pr.ref} not understood: {e}")
+            if got is not want:
+                probs.append(f"{pr.ref.split(':')[-1]}({v!r}) is {got!r}, the type's domain (finite binary64) says {want}")
+        fl_ok, fl_why = not probs, "; ".join(probs)
+    rep.check(R_F, fl_ok and I.class_lookup(f64, "__bound__") is LibClass.get("float"),
+              construct="kio.static.primitive:f64", stmt=f"class f64(float, Phantom, bound=float, predicate={getattr(pr, 'ref', getattr(pr, 'name', pr))})",
+              message=f"f64's bound is {I.class_lookup(f64, '__bound__')!r}; {fl_why}", file=file,
               line=f64.node.lineno if isinstance(f64, ClassV) else 0)
     rep.trusted_base += ["kverif E2 interpretation of PhantomMeta / Phantom / Interval from source", "struct format ranges"]
